@@ -73,7 +73,7 @@ Definition lead_out_step (tol tt : Z) (t : ptable) (L i e : Z) (st : lo_state) :
                              || ((i + 1 =? L) && (s <? 0) && matchb tol (b + s) e)) (map snd t) with
         | Some s => Ok {| lo_code := code'; lo_clean := lo_clean st ++ [Some e]; lo_half := lo_half st ++ [s] |}
         | None =>
-            if matchb tol e (tt + Z.abs b) then
+            if (i + 1 =? L) && matchb tol e (tt + Z.abs b) then
               Ok {| lo_code := code'; lo_clean := lo_clean st ++ [None]; lo_half := lo_half st |}
             else match lo_clean st with
                  | [] =>
